@@ -22,6 +22,8 @@ type C14Case struct {
 	Reader string `json:"reader,omitempty"` // npy/csv: how the stream delivers (""|half|onebyte|bufio16|dataerr)
 	// UsedRecv: the receiver was decoded into before (a masked tensor with as many elements)
 	UsedRecv bool `json:"usedRecv,omitempty"`
+	// BackedRecv: the receiver was built over a slice the caller holds (float tensors: with their engine)
+	BackedRecv bool `json:"backedRecv,omitempty"`
 }
 
 func init() { register("C14.roundtrip", func() Case { return &C14Case{} }) }
@@ -31,7 +33,7 @@ func (c *C14Case) NTKey() string {
 	if c.A.L.IsContig() && !c.A.L.IsCM() && c.A.Mask == nil && len(c.A.Shape) == 2 && d.IsFloat() {
 		return ""
 	}
-	return fmt.Sprintf("%s|%s|%v|%v|%v|%s|%s|%v", c.Format, c.DT, c.A.Shape, c.A.L, c.A.Mask != nil, c.Then, c.Reader, c.UsedRecv)
+	return fmt.Sprintf("%s|%s|%v|%v|%v|%s|%s|%v|%v", c.Format, c.DT, c.A.Shape, c.A.L, c.A.Mask != nil, c.Then, c.Reader, c.UsedRecv, c.BackedRecv)
 }
 
 // formatAccepts: the element types each format documents.
@@ -220,8 +222,33 @@ func (c *C14Case) Run() string {
 			}
 		}
 	}
+	// ... or the receiver is a tensor the caller built over a slice of its own (with one of the engines):
+	// decoding into it gives it new storage, the caller's slice stays as it was
+	var held interface{}
+	var heldVals []interface{}
+	if c.BackedRecv && len(A.arr.Shape) > 0 && d.Name != "unsafe.Pointer" {
+		prev := seqArr(d, []int{prod(A.arr.Shape) + 3}, 11)
+		held = mkBacking(d, prev.E)
+		heldVals = prev.E
+		dec = tensor.New(tensor.WithShape(len(prev.E)), tensor.WithBacking(held))
+		switch d.Name {
+		case "float64":
+			tensor.WithEngine(tensor.Float64Engine{})(dec)
+		case "float32":
+			tensor.WithEngine(tensor.Float32Engine{})(dec)
+		}
+		rec.Class("receiver:backed")
+	}
 	var derr error
 	pan = try(func() { _, derr = c14DecodeInto(dec, c.Format, enc, d, c.Reader) })
+	if held != nil && pan == "" && derr == nil {
+		now := backingVals(held)
+		for k := range heldVals {
+			if !bitEqVal(now[k], heldVals[k]) {
+				return desc + fmt.Sprintf(": decoding into a tensor built over the caller's slice overwrote that slice: element %d was %s, is %s", k, fmtVal(heldVals[k]), fmtVal(now[k]))
+			}
+		}
+	}
 	if pan != "" {
 		return desc + ": was encoded but decoding panicked: " + pan
 	}
@@ -430,6 +457,7 @@ func genC14(rt *rapid.T, format string, d DT, lk string, masked bool) *C14Case {
 	}
 	c.Reader = rapid.SampledFrom([]string{"", "", "half", "onebyte", "bufio16", "dataerr"}).Draw(rt, "reader")
 	c.UsedRecv = rapid.IntRange(0, 3).Draw(rt, "usedrecv") == 0
+	c.BackedRecv = !c.UsedRecv && rapid.IntRange(0, 3).Draw(rt, "backedrecv") == 0
 	if !masked && rapid.IntRange(0, 2).Draw(rt, "chain") == 0 {
 		c.Then = rapid.SampledFrom([]string{"gob", "npy", "csv", "pb", "fb"}).Draw(rt, "then")
 	}
